@@ -104,7 +104,7 @@ class Run:
             for item in self.pending_triggers:
                 trig = item['trigger']
                 if trig.get('wire') == m and self.wire_counts[m] >= trig.get('n', 1) \
-                        and sim.now >= trig.get('after', 0.0):
+                        and trig.get('after', 0.0) <= sim.now <= trig.get('before', 1e18):
                     fired.append(item)
             for item in fired:
                 self.pending_triggers.remove(item)
@@ -119,7 +119,7 @@ class Run:
         for item in self.pending_triggers:
             trig = item['trigger']
             if 'state' in trig and trig['state'] == state and trig.get('inst', '*') in ('*', inst.nick) \
-                    and sim.now >= trig.get('after', 0.0):
+                    and trig.get('after', 0.0) <= sim.now <= trig.get('before', 1e18):
                 if trig.get('master') is not None:
                     is_master = inst.supvisors.state_modes.is_master()
                     if is_master != trig['master']:
